@@ -1079,7 +1079,7 @@ func onlyConstFieldStores(cell *ssa.Alloc, f int) bool {
 			}
 			for _, r2 := range *fa.Referrers() {
 				if st, ok := r2.(*ssa.Store); ok && st.Addr == ssa.Value(fa) {
-					if _, isC := st.Val.(*ssa.Const); !isC {
+					if _, isC := st.Val.(*ssa.Const); !isC && !keepsOrDefaults(st.Val, fa) {
 						okAll = false
 					}
 				}
@@ -1087,6 +1087,50 @@ func onlyConstFieldStores(cell *ssa.Alloc, f int) bool {
 		}
 	})
 	return okAll
+}
+
+// keepsOrDefaults: v is the result of a helper every result of which is one
+// of its own parameters, called with this very field and constants
+// (options.Limit = limitOrDefault(options.Limit, 10)): the field keeps its
+// value or takes a constant, as with the written-out default.
+func keepsOrDefaults(v ssa.Value, fa *ssa.FieldAddr) bool {
+	call, ok := v.(*ssa.Call)
+	if !ok {
+		return false
+	}
+	g := call.Common().StaticCallee()
+	if g == nil || g.Blocks == nil || g.Signature.Results().Len() != 1 {
+		return false
+	}
+	rets := ssau.ReturnsOf(g)
+	for _, ret := range rets {
+		p, isP := ret.Results[0].(*ssa.Parameter)
+		if !isP {
+			return false
+		}
+		idx := -1
+		for i, q := range g.Params {
+			if q == p {
+				idx = i
+			}
+		}
+		if idx < 0 || idx >= len(call.Common().Args) {
+			return false
+		}
+		a := call.Common().Args[idx]
+		if _, isC := a.(*ssa.Const); isC {
+			continue
+		}
+		ld, isLoad := a.(*ssa.UnOp)
+		if !isLoad || ld.Op != token.MUL {
+			return false
+		}
+		fa2, isFA := ld.X.(*ssa.FieldAddr)
+		if !isFA || fa2.X != fa.X || fa2.Field != fa.Field {
+			return false
+		}
+	}
+	return len(rets) > 0
 }
 
 // FieldOf resolves the value of a field of a struct-valued argument.
